@@ -99,10 +99,14 @@ def run_case(ctx, case):
     if proj is None:
         raise harness.Skip(why)
     fl, date, exp, why = updates.plan_update(R, proj.vp, proj.cur_text, proj.cur_state, tdy)
-    if exp is None:
+    if exp is None and why != "gate-unknown":
         raise harness.Skip("no-successful-update-planned:" + why)
     args = updates.update_args(fl, date)
-    if R.random() < 0.12:
+    if exp is None:
+        # old and new version are both outside PEP 440 (decorated patterns): whether the version gate lets the bump
+        # pass is not modelled, but IF the update succeeds its occurrences are checked like any other
+        ctx.count("updates_of_non_pep440_versions_attempted")
+    elif R.random() < 0.12:
         # the same target given as --set-version in a spelling the pattern accepts but would not render itself
         # (a leading zero in a MAJOR/MINOR/PATCH/INC0 number): what is announced is what has to be written
         setv = noncanonical_numeric(R, proj.vp, exp)
